@@ -18,6 +18,8 @@ LEAF = [
     ("delta", "varintDelta.c", ["varintDeltaZigZag", "varintDeltaZigZagDecode"]),
     ("group", "varintGroup.c", ["varintGroupBitmapSize_", "varintGroupWidthDecode_", "varintGroupWidthEncode_",
                                 "varintGroupGetFieldWidth", "varintGroupGetSize"]),
+    ("elias", "varintElias.c", ["floorLog2", "varintEliasGammaBits", "varintEliasGammaMaxBytes",
+                                "varintEliasDeltaMaxBytes"]),
 ]
 
 
